@@ -265,10 +265,8 @@ func (m *Machine) endPath(outcome, detail, pos string) {
 	}
 	m.res.Outcome = outcome
 	m.res.Detail = detail
-	if outcome == "panic" || outcome == "deadlock" {
-		if m.ownPanics {
-			m.reportEnd(outcome, detail, pos)
-		}
+	if (outcome == "panic" && m.ownPanics) || (outcome == "deadlock" && (m.ownPanics || m.ownDeadlocks)) {
+		m.reportEnd(outcome, detail, pos)
 	}
 }
 
